@@ -1,7 +1,7 @@
 (* C05 — Each manipulation call has exactly the effect an ordered-tree model predicts.
    Pinned statements only.  Model: Model/Store.v, Model/Manip.v. *)
 From Coq Require Import List NArith Permutation.
-From XotV Require Import Model.Base Model.Zipper Model.Access Model.Store Model.Manip Proofs.StoreProofs Proofs.ManipProofs Proofs.InvSteps Proofs.TreeFrame Proofs.Canon Proofs.CloneShape Proofs.WrapEffect Proofs.DetachEffect Proofs.UnwrapEffect2 Spec.Shape Proofs.NoAdjFacts.
+From XotV Require Import Model.Base Model.Zipper Model.Access Model.Store Model.Manip Proofs.StoreProofs Proofs.ManipProofs Proofs.InvSteps Proofs.TreeFrame Proofs.Canon Proofs.CloneShape Proofs.WrapEffect Proofs.DetachEffect Proofs.UnwrapEffect2 Spec.Shape Spec.NoAdj Proofs.NoAdjFacts Proofs.PlainFacts Proofs.PlainOps Proofs.Atomic Proofs.InvHist.
 Import ListNotations.
 Open Scope N_scope.
 
@@ -162,3 +162,63 @@ Example C05_unwrap_level_example :
   /\ unwrap_level (FCons 1 (VText [97]) FNil FNil) (FCons 5 (VElement 9) FNil (FCons 3 (VText [98]) FNil FNil)) (FCons 4 (VText [99]) FNil FNil)
      = FCons 1 (VText [97]) FNil (FCons 5 (VElement 9) FNil (FCons 3 (VText [98; 99]) FNil FNil)).
 Proof. split; reflexivity. Qed.
+
+
+(* ---------- the four insertion calls, for nodes attached anywhere: the plain ordered-tree move ----------
+   Whatever the node [b] is and wherever it is — a new node, a child of the same parent, a node of another tree or document —
+   a successful append / prepend / insert_after / insert_before leaves the store in the state the same operation produces on
+   plain ordered trees:  [fdel b] takes the subtree out of wherever it was, the plain list insertion ([finsert_after],
+   [finsert_before], [fapp k t] at the end of the children of P, [insert_first_normal] in front of its ordinary children) puts
+   it in at the requested place, nothing else is created, lost, reordered or altered; and with consolidation on the result is
+   read with every run of adjacent text nodes of a child list as one text node ([content], Proofs/PlainFacts.v: [unormb]) —
+   "text nodes that become adjacent are merged, so the character data of every ancestor is what the move implies".
+   [erase] forgets the slots: which of two merged text nodes keeps its handle is stated by C05_detach_effect and compared in
+   the correspondence run.  The hypothesis is that the call passes its argument check (otherwise it is refused and changes
+   nothing, C06) and that the store has no adjacent text nodes while consolidation is on (C04).  A call that asks for the
+   place the node already has is included: the plain move then gives the same forest back. *)
+Theorem C05_insert_after_is_the_plain_move :
+  forall st ref b, Good st -> (cons st = true -> noadj st) -> sibling_check st ref b = true ->
+    erase (store (fst (m_insert_after st ref b))) = content (cons st) (finsert_after ref (tree_of st b) (fdel b (store st))).
+Proof. exact insert_after_plain. Qed.
+Print Assumptions C05_insert_after_is_the_plain_move.
+
+Theorem C05_insert_before_is_the_plain_move :
+  forall st ref b, Good st -> (cons st = true -> noadj st) -> sibling_check st ref b = true ->
+    erase (store (fst (m_insert_before st ref b))) = content (cons st) (finsert_before ref (tree_of st b) (fdel b (store st))).
+Proof. exact insert_before_plain. Qed.
+Print Assumptions C05_insert_before_is_the_plain_move.
+
+Theorem C05_append_is_the_plain_move :
+  forall st P b, Good st -> (cons st = true -> noadj st) -> structure_check st (Some P) b = true ->
+    erase (store (fst (m_append st P b))) = content (cons st) (fmap_kids P (fun k => fapp k (tree_of st b)) (fdel b (store st))).
+Proof. exact append_plain. Qed.
+Print Assumptions C05_append_is_the_plain_move.
+
+Theorem C05_prepend_is_the_plain_move :
+  forall st P b, Good st -> (cons st = true -> noadj st) -> structure_check st (Some P) b = true ->
+    erase (store (fst (m_prepend st P b))) = content (cons st) (fmap_kids P (insert_first_normal (tree_of st b)) (fdel b (store st))).
+Proof. exact prepend_plain. Qed.
+Print Assumptions C05_prepend_is_the_plain_move.
+
+(* the argument checks, and the successful outcome, are what the statements above assume *)
+Theorem C05_checked_calls_succeed :
+  forall st,
+    (forall p c, structure_check st (Some p) c = true -> snd (m_append st p c) = MDone None)
+    /\ (forall p c, structure_check st (Some p) c = true -> snd (m_prepend st p c) = MDone None)
+    /\ (forall r n, sibling_check st r n = true -> snd (m_insert_after st r n) = MDone None).
+Proof. intros st. split; [|split]; intros; [apply m_append_done|apply m_prepend_done|apply m_insert_after_done]; assumption. Qed.
+Print Assumptions C05_checked_calls_succeed.
+
+(* non-vacuity, on a reachable store:  <e5>"h" <e6/> "i" <e7/></e5>;  insert_after(e7, e6) takes e6 from between the two text
+   nodes: the plain move leaves "h" "i" side by side, its reading has one text node "hi", and that is what the call leaves *)
+Example C05_plain_move_example :
+  let ops := [ONewDoc; ONewEl 5; OAppend 0 1; ONewText [104]; OAppend 1 2; ONewEl 6; OAppend 1 3; ONewText [105]; OAppend 1 4;
+              ONewEl 7; OAppend 1 5] in
+  let st := mfinal init_state ops in
+  let plain := finsert_after 5 (tree_of st 3) (fdel 3 (store st)) in
+  let want := UCons VDocument (UCons (VElement 5) (UCons (VText [104; 105]) UNil (UCons (VElement 7) UNil (UCons (VElement 6) UNil UNil))) UNil) UNil in
+  sibling_check st 5 3 = true /\ cons st = true /\ na (store st) = true
+  /\ erase (store (fst (m_insert_after st 5 3))) = want
+  /\ content true plain = want
+  /\ erase plain = UCons VDocument (UCons (VElement 5) (UCons (VText [104]) UNil (UCons (VText [105]) UNil (UCons (VElement 7) UNil (UCons (VElement 6) UNil UNil)))) UNil) UNil.
+Proof. vm_compute. repeat split. Qed.
